@@ -448,6 +448,11 @@ package gohlslib
 //@ end
 
 // PART-TARGET candidate: the longest part of the listed segments and of the open segment, rounded up to a millisecond
+// tightness: PART-TARGET is the longest listed part rounded up to the next millisecond, not more (a larger value
+// would break "non-final parts last at least 85 % of PART-TARGET")
+//@ pred someDur(segments []muxerSegment, nsp []*muxerPart, d time.Duration) := d == 0
+//@   || exists(i, j, 0 <= i && i < len(segments) && isF(segments[i]) && 0 <= j && j < len(asF(segments[i]).parts) && d == asF(segments[i]).parts[j].getDuration())
+//@   || exists(j, 0 <= j && j < len(nsp) && d == nsp[j].getDuration())
 //@ func partTargetDuration
 //@   props C03 C19
 //@   requires anylock() && segsOK(segments) && forall(j, (0 <= j && j < len(nextSegmentParts)) ==> nextSegmentParts[j] != nil)
@@ -462,6 +467,10 @@ package gohlslib
 //@   loop 3 invariant -1 <= ri && ri < len(nextSegmentParts) && ret >= 0
 //@   loop 3 invariant forall(i, j, (0 <= i && i < len(segments) && isF(segments[i]) && 0 <= j && j < len(asF(segments[i]).parts)) ==> ret >= asF(segments[i]).parts[j].getDuration())
 //@   loop 3 invariant forall(j, (0 <= j && j <= ri) ==> ret >= nextSegmentParts[j].getDuration())
+//@   loop 1 invariant someDur(segments, nextSegmentParts, ret)
+//@   loop 2 invariant someDur(segments, nextSegmentParts, ret)
+//@   loop 3 invariant someDur(segments, nextSegmentParts, ret)
+//@   ensures [C03,C19] local exists(d, someDur(segments, nextSegmentParts, d) && d <= result && result < d + 1000000)
 //@ end
 
 
